@@ -99,6 +99,18 @@ CHECKS = {
         note="Rotamer about the new bond not prescribed under optimize_rotation; partial charges of the product not asserted; combine.py's loop restated (openbabel import).",
         technique="property-based testing with constructive 3-D fragment generators and an independent geometric oracle",
     ),
+    "C13": dict(
+        category="exploration",
+        text="Every labelled fragment of the 7 bundled .cdxml files (exhaustive) and of generated variants (top-level objects permuted, page translated, ids renumbered, "
+             "<n> children permuted, each with its wedge<->hash mirrored twin) is parsed and compared with an independent ElementTree walk of the same file "
+             "(attributed-graph isomorphism incl. isotopes, charges, radicals, attachment points, hydrogen hints, bond types, hapto expansion, nested fragments), total charge / "
+             "multiplicity, two parses under different np.random states, label -> fragment resolution, centre-level handedness inversion under mirroring, and an absolute "
+             "handedness oracle computed from the drawing alone for unambiguous centres.",
+        design_ref="DESIGN.md section 5, C13",
+        note="Atoms bonded to hapto centres excluded from handedness; labels drawn twice are ambiguous in the file and skipped under object permutation; "
+             "only bundled drawings and structure-preserving variants of them (no generator of new drawings).",
+        technique="metamorphic testing (mirror / permutation / translation / renumbering) + differential testing against an independent parser",
+    ),
     "C02": dict(
         category="exploration",
         text="Bounded-exhaustive (all op sequences up to length 4/5 over a 14-letter alphabet on two raw UKVFile handles) plus random "
